@@ -561,9 +561,15 @@ def handleNamesJ (ver ents junk : String) : String :=
     if decide (WFrootList v es) && junkOk && !js.isEmpty then
       let showEs := fun (l : List (Bytes × Int)) =>
         if l.isEmpty then "-" else ",".intercalate (l.map (fun e => s!"{Bytes.toHex e.1}:{e.2}"))
-      let jl := fun (i : Nat) => 10 :: js.getD (i % js.length) []
+      -- a junk list that starts with the token `crlf` (hex 63726c66) asks for CR LF line ends
+      -- throughout (that token itself is then no line)
+      let crlf := js.head? == some [0x63, 0x72, 0x6c, 0x66]
+      let js := if crlf then js.drop 1 else js
+      let nl : Bytes := if crlf then [13, 10] else [10]
+      let jl := fun (i : Nat) => if js.isEmpty then [] else nl ++ js.getD (i % js.length) []
       let file := [0x45, 0x58, 0x4c, 0x54, 0x2c] ++ showInt v
-        ++ (es.zipIdx.map (fun (e, i) => jl i ++ 10 :: (e.1 ++ 0x2c :: showInt e.2))).flatten ++ jl es.length
+        ++ (es.zipIdx.map (fun (e, i) => jl i ++ nl ++ (e.1 ++ 0x2c :: showInt e.2))).flatten ++ jl es.length
+        ++ (if crlf then nl else [])
       let m := ExcelRootList.fromExisting file
       answer s!"exl {Bytes.toHex file}" s!"{v} {showEs es}" ["corr"] (some s!"{m.version} {showEs m.entries}")
     else bad
